@@ -215,6 +215,18 @@ func c17GuardUse(c *Ctx, fn *ssa.Function, g guardInst, gname, name string, use 
 		}
 		c.Fail("guard", name+":escape["+gname+"]", u.Pos(), "guarded map passed to a call: it escapes the lock discipline")
 	case *ssa.DebugRef:
+	case *ssa.Phi:
+		// a local alias of the table (or of the new table made when it was absent): its uses are
+		// uses of the table
+		for _, e := range u.Edges {
+			if _, isMake := e.(*ssa.MakeMap); !isMake && e != loaded {
+				c.Fail("guard", name+":escape["+gname+"]", use.Pos(), "guarded map merged with another value: it escapes the lock discipline")
+				return
+			}
+		}
+		for _, use2 := range *u.Referrers() {
+			c17GuardUse(c, fn, g, gname, name, use2, u, held)
+		}
 	default:
 		c.Fail("guard", name+":escape["+gname+"]", use.Pos(), fmt.Sprintf("guarded map used by %T: it escapes the lock discipline", use))
 	}
